@@ -107,7 +107,7 @@ func (in *interner) resources(t *testing.T, rs model.Resources) []rsrc {
 const findPortRemoval = "C03-delta-cds-port-removal-keeps-sibling-cluster"
 
 func genHDelta(t *testing.T, c *vlib.Collector, r *vlib.Rand, id int) int {
-	n := vlib.Scale(24, 500)
+	n := vlib.Scale(24, 240)
 	for k := 0; k < n; k++ {
 		id++
 		cs := r.Sub()
